@@ -26,9 +26,10 @@ func init() {
 
 func runC09(c *core.Ctx) {
 	c.Rule("R1", "tokens file: write tmp (truncated) then rename, rename only after successful write+close; no other writer; load errors tolerated", 5)
-	c.Rule("R2", "heartbeat: entry missing => re-register with remembered tokens/state; entry present => keep the ring's tokens", 4)
+	c.Rule("R2", "heartbeat: entry missing => re-register with remembered tokens/state in the CAS descriptor; entry present => keep the ring's tokens", 6)
 	c.Rule("R3", "restart with existing entry adopts tokens and state from the ring entry", 2)
 	c.Rule("R4", "token top-up: request (target − held) tokens and append them to the held list", 5)
+	c.Rule("R6", "restart from a tokens file goes ACTIVE only with a complete token set", 1)
 	c.Rule("R5", "a requested state change is remembered even when the store write fails", 1)
 	pkg := c.Prog.Pkg("ring")
 	if pkg == nil {
@@ -234,6 +235,10 @@ func c09HeartbeatAs(c *core.Ctx, R string) {
 			okPresent := len(vals["T"]) == 1 && (vals["T"][0] == "<unreachable>" || vals["T"][0] == entryCanon+".Tokens")
 			c.Check(okMissing, R, "func="+lf.Name+":missing", add.Expr.Pos(), fmt.Sprintf("own entry missing: AddIngester tokens ∈ %v (must be the lifecycler's remembered tokens)", vals["F"]), 1)
 			c.Check(okPresent, R, "func="+lf.Name+":present", add.Expr.Pos(), fmt.Sprintf("own entry present: AddIngester tokens ∈ %v (must be the tokens recorded in the ring entry %s.Tokens, or no AddIngester at all)", vals["T"], entryCanon), 1)
+			if sel, ok := add.Expr.Fun.(*ast.SelectorExpr); ok {
+				rc := lf.Canon(sel.X)
+				c.Check(strings.HasPrefix(rc, "GetOrCreateRingDesc("), R, "func="+lf.Name+":into", add.Expr.Pos(), "the re-registration is made in the descriptor the CAS works on ("+rc+"), before anything else looks at it", 1)
+			}
 			stc := lf.Canon(add.Expr.Args[s.stArg])
 			c.Check(stc == "recv.GetState()", R, "func="+lf.Name+":state", add.Expr.Pos(), "state re-published = "+stc+" (the lifecycler's remembered state)", 1)
 		}
@@ -285,6 +290,54 @@ func c09Restart(c *core.Ctx) {
 				vals = []string{lf.Canon(call.Expr.Args[0])}
 			}
 			c.Check(len(vals) == 1 && vals[0] == entryCanon+".Tokens", "R3", "initRing:tokens", call.Expr.Pos(), fmt.Sprintf("restart with an existing ACTIVE entry: local tokens ∈ %v (must be the ring entry's tokens %s.Tokens)", vals, entryCanon), 1)
+		}
+		// R6: going ACTIVE straight from a tokens file requires a complete token set (otherwise the instance
+		// stays PENDING with the file's tokens and auto-join tops them up)
+		for _, call := range lf.CallsTo(false, "ring", "(*Lifecycler).setState") {
+			if lf.ConstName(call.Expr.Args[0]) != "ACTIVE" {
+				continue
+			}
+			// the tokens published in that branch
+			var tok types.Object
+			for _, st := range sets {
+				r := g.Exec(g.Locate(call.Expr), []an.Loc{g.Locate(st.Expr)}, func(ast.Expr, an.Store) an.Tri { return an.U }, an.ExecOpts{})
+				if r.May[0] {
+					tok = lf.ObjOf(st.Expr.Args[0])
+				}
+			}
+			if tok == nil {
+				c.Undec("R6", "initRing:file-active", call.Expr.Pos(), "the tokens published together with the ACTIVE state were not found")
+				continue
+			}
+			bad := []string{}
+			for _, ord := range []string{"lt", "eq", "gt"} {
+				leaf := func(e ast.Expr, _ an.Store) an.Tri {
+					be, ok := an.Unparen(e).(*ast.BinaryExpr)
+					if !ok {
+						return an.U
+					}
+					isLen := func(x ast.Expr) bool {
+						cl, ok := an.Unparen(x).(*ast.CallExpr)
+						return ok && an.ObjIs(an.Callee(lf.Info(), cl), "", "len") && len(cl.Args) == 1 && lf.ObjOf(cl.Args[0]) == tok
+					}
+					isCfg := func(x ast.Expr) bool { return lf.Canon(x) == "recv.cfg.NumTokens" }
+					switch {
+					case isLen(be.X) && isCfg(be.Y):
+						return an.CmpTri(be.Op, ord)
+					case isCfg(be.X) && isLen(be.Y):
+						return an.CmpTri(be.Op, map[string]string{"lt": "gt", "eq": "eq", "gt": "lt"}[ord])
+					}
+					return an.U
+				}
+				r := g.Exec(g.EntryLoc(), []an.Loc{g.Locate(call.Expr)}, leaf, an.ExecOpts{})
+				if ord == "lt" && r.May[0] {
+					bad = append(bad, "reachable with fewer tokens than configured")
+				}
+				if ord != "lt" && !r.May[0] {
+					bad = append(bad, "unreachable with a complete token set ("+ord+")")
+				}
+			}
+			c.Check(len(bad) == 0, "R6", "initRing:file-active", call.Expr.Pos(), fmt.Sprintf("without a ring entry the instance goes ACTIVE from the tokens file ⇔ len(%s) ≥ configured token count %v", tok.Name(), bad), 3)
 		}
 		for _, call := range lf.CallsTo(false, "ring", "(*Lifecycler).setState") {
 			a := lf.Canon(call.Expr.Args[0])
